@@ -438,3 +438,52 @@ Proof.
   - rewrite (proj1 Hm). cbn [N.eqb]. exact Hm.
   - exact Hm.
 Qed.
+
+(** ** a lazy clone of a value the caller owns (user-defined cloneable value of the element type) *)
+Lemma exec_offer_userlazy c w st vid idx d r :
+  cfg_wf c -> WRep c w st -> ufuse (wuw w) = None -> adm_vec c w vid ->
+  sp_offer_userlazy c st (unext (wuw w)) vid idx = Some r ->
+  res_matches c w ((do o <- make_offer c (SLazyUser d);
+                    offer_into c vid o (raw_action c idx);; ret (0, @nil N)) w) r.
+Proof.
+  intros Hwf HW Hfuse Hadm Hr. unfold sp_offer_userlazy in Hr.
+  destruct (get_a vid st) as [av|] eqn:Hga; [|discriminate].
+  destruct (wrep_get c w st vid av HW Hga) as (va & Hgva & HVa).
+  cbv zeta in Hr.
+  set (t := tok c (unext (wuw w))) in *. set (n := tok c (unext (wuw w) + 1)) in *.
+  set (o := {| f_ty := c_ty c; f_src := VClone (enc (szn c) t) true; f_checked := true; f_drop := DAfter t |}).
+  assert (Emk : make_offer c (SLazyUser d) w = Ok o (bump w)) by reflexivity.
+  unfold bind at 1. rewrite Emk.
+  set (w0 := bump w).
+  assert (Hg0 : get_vec vid w0 = Some va) by exact Hgva.
+  assert (Hnx0 : unext (wuw w0) = unext (wuw w) + 1) by reflexivity.
+  pose proof (raw_action_clone_spec c va av (wuw w0) idx (enc (szn c) t) t true Hwf HVa
+                (dec_enc _ _ (tok_tok_ok c _)) Hfuse (Hadm va Hgva)) as Hspec.
+  cbv zeta in Hspec. rewrite Hnx0 in Hspec. fold n in Hspec.
+  unfold offer_into, unwinding.
+  destruct (put_value c av idx n) as [xs'|p]; injection Hr as <-.
+  - destruct Hspec as (v' & u' & E & HV' & Hn' & Hf' & He').
+    unfold bind at 1. unfold bind at 1. unfold on_unwind. rewrite offer_check_pass by reflexivity.
+    cbn [f_src o]. rewrite (on_vec_ok vid _ w0 va tt v' u' Hg0 E).
+    unfold finish_offer. cbn [f_drop o]. unfold bind, harness_drop, ret.
+    cbn [res_matches ok_res s_out s_pk s_ret s_st s_evs s_nx].
+    assert (Hrep : WRep c (put_vec vid (Some v') u' w0) (set_a vid (Some (with_xs av xs')) st)).
+    { apply wrep_put; [apply wrep_bump; exact HW|exact HV']. }
+    destruct (c_dg c) eqn:Hdg; unfold emitw; cbn [res_matches];
+      (split; [reflexivity|split; [reflexivity|split; [reflexivity|]]]);
+      constructor; cbn [wuw wv put_vec emit unext ufuse ok_res s_nx s_evs]; auto; try (rewrite Hn'; lia);
+      try (rewrite ?uevents_emit_user by reflexivity; rewrite He'; unfold drop_ev; rewrite Hdg; reflexivity).
+  - unfold bind at 1. unfold bind at 1. unfold on_unwind. rewrite offer_check_pass by reflexivity.
+    cbn [f_src o]. rewrite (on_vec_panic vid _ w0 va p va (wuw w0) Hg0 Hspec).
+    unfold quiet, drop_offer. cbn [f_drop o]. unfold harness_drop.
+    cbn [res_matches panic_res s_out s_pk s_ret s_st s_evs s_nx].
+    assert (Hrep : WRep c (put_vec vid (Some va) (wuw w0) w0) st).
+    { apply (wrep_put_same c w0 st vid va av); [apply wrep_bump; exact HW|exact Hga|exact HVa]. }
+    destruct (c_dg c) eqn:Hdg; unfold emitw, ret; cbn [wuw wv put_vec ulog unext ufuse disarm emit res_matches];
+      (split; [reflexivity|split; [reflexivity|split; [reflexivity|]]]);
+      constructor; cbn [wuw wv ulog unext ufuse panic_res s_nx s_evs s_st]; auto;
+      try (apply (wrep_wv c (put_vec vid (Some va) (wuw w0) w0)); [reflexivity|exact Hrep]);
+      try (unfold w0, bump; cbn [wuw unext]; lia);
+      try (unfold w0, bump; cbn [wuw ufuse]; exact Hfuse);
+      try (unfold uevents, drop_ev; rewrite Hdg; unfold w0, bump; cbn [wuw ulog filter is_user_event rev app]; reflexivity).
+Qed.
